@@ -14,7 +14,7 @@ RULE = ('cross product flags subsets of {-,+,space,0} (d,i) / {-,#,0} (o,x,X, no
         'must equal the C library\'s snprintf("%l..") in the same process byte for byte and in return value; values beyond long: the same layout '
         'model (validated against libc on the fitting values of the same run) applied to Python digits; %Q (den only when needed, # on both parts), '
         '%N (negative size = negative), %M vs %l; %F e/f/g for values whose decimal expansion is exact within the precision, compared with libc on '
-        'the equal double; mixed standard conversions; snprintf with every size 0..len+1 (fenced buffer); asprintf (block strlen+1 by the '
+        'the equal double, and %Ff/%Fe of 1..12-limb integer parts with dyadic fractions against the exact decimal expansion (precision >= digits needed); mixed standard conversions; snprintf with every size 0..len+1 (fenced buffer); asprintf (block strlen+1 by the '
         'recorder), sprintf, v* forms, obstack_printf; sscanf/fscanf read-back of everything printed, %Zi base detection, widths, %*, literals, %n, '
         'mismatch and EOF, mixed with standard conversions compared with libc sscanf. MPIR\'s documented deviations (signed o/x/X with +/space, empty '
         'precision, # with precision 0 on zero) are outside the C comparison. distinct = (conversion, flags, width class, precision class, value class)')
@@ -73,6 +73,12 @@ def specs(rng, tier, wid, nw, env):
                 for p in PRECS:
                     k += 1
                     if k % nw == wid: yield ('int', conv, list(fl), w, p, rng.getrandbits(48))
+    # %Ff / %Fe on values far outside double's exact range (1..12-limb integer parts, dyadic fractions), exact-decimal oracle
+    for limbs in range(1, 13):
+        for conv in 'fe':
+            for j in range(24 if q else 300):
+                k += 1
+                if k % nw == wid: yield ('bigfloat', limbs, conv, rng.getrandbits(48))
     N = 12000 if q else 200000
     for i in range(N):
         c = rng.random()
@@ -202,6 +208,32 @@ def build(spec, env):
             a, _ = split_reply(rep[1]); b, _ = split_reply(rep[2])
             if a != b: return [('printf:%%F-differs-from-C-on-exact-value:conv=%s flags=%s' % (conv, fl), 'fmt=%r value=%s mpir=%r libc=%r' % (fz, x, unhexs(a[1]), unhexs(b[1])))]
         return Case(cmds, check, 2, ('float', conv, fl, w, prec if prec < 14 else 14, x < 0, x == int(x)))
+    if kind == 'bigfloat':
+        _, limbs, conv, _s = spec
+        j = r.choice([0, 0, 1, 3, 7, 12]); m = gen.nat(r, limbs, r.choice(['rand', 'ones', 'topmax', 'special', 'rand'])) or 1
+        if r.random() < 0.3: m = (1 << (64 * limbs)) - r.choice([1, 2, 1 << 32])
+        neg = r.random() < 0.4
+        big = m * 5 ** j; ds = str(big); ip = m >> j; fr = str((m & ((1 << j) - 1)) * 5 ** j).rjust(j, '0') if j else ''
+        fl = r.choice(['', '', '-', '+', ' ', '0']); w = r.choice(['', '', str(len(ds) + 9), '4'])
+        sign = '-' if neg else ('+' if '+' in fl else (' ' if ' ' in fl else ''))
+        if conv == 'f':
+            prec = r.choice([j, j, j + 1, j + 4, 40]); body = str(ip) + ('.' + fr + '0' * (prec - j) if prec > 0 else '')
+        else:
+            sig = ds.rstrip('0') or '0'; nd = len(sig); prec = r.choice([nd - 1, nd - 1, nd, nd + 6]); e10 = len(ds) - 1 - j
+            body = sig[0] + ('.' + sig[1:].ljust(prec, '0') if prec > 0 else '') + 'e' + ('-' if e10 < 0 else '+') + str(abs(e10)).rjust(2, '0')
+        want = sign + body
+        if w and len(want) < int(w):
+            pad = int(w) - len(want)
+            want = want + ' ' * pad if '-' in fl else (sign + '0' * pad + body if '0' in fl else ' ' * pad + want)
+        fz = '%' + fl + w + '.' + str(prec) + 'F' + conv
+        cmds = [api.fcmd('F1', 64 * (limbs + 2), (-m if neg else m, -j)), 'gf F1', 'pf snprintf 900 %s F1' % hexs('[' + fz + ']')]
+        def check(rep, fz=fz, want=want, m=m, j=j, neg=neg):
+            p_, e_, sz_, mag_ = parse_f(rep[1].split()[0])
+            if models.mpf_value(p_, e_, sz_, mag_) != Fraction(-m if neg else m, 1 << j): return [('harness:bigfloat-value-not-stored-exactly', rep[1][:80])]
+            a, _ = split_reply(rep[2]); got = unhexs(a[1]).decode('latin-1')
+            if got != '[' + want + ']' or int(a[0]) != len(want) + 2:
+                return [('printf:%%F-differs-from-exact-decimal:conv=%s' % conv, 'fmt=%r value=%s%d/2^%d mpir=%r want=%r' % (fz, '-' if neg else '', m, j, got[:120], want[:120]))]
+        return Case(cmds, check, 1, ('bigfloat', conv, limbs, j, fl, bool(w), prec - j if conv == 'f' else 0))
     if kind == 'mixed':
         z = gen.val(r, 3); qv = api.rnd_q(r)
         pieces = [('%s', hexs('str'), 'str'), ('%d', '#-42', '-42'), ('%5.2f', 'd0x1.8p+1', ' 3.00'), ('%c', '#65', 'A'), ('%%', None, '%'), ('%Zd', 'Z1', str(z)), ('%Zx', 'Z1', models.digits(z, 16)),
